@@ -11,7 +11,9 @@ import (
 	"github.com/sourcenetwork/defradb/verifharness/hx"
 )
 
-// TestDebug: VERIF_REPLAY=file → shows the export error inside an explicit txn, and the file.
+// TestDebug is a development aid, not part of the check: with VERIF_REPLAY=<case file> it prints the schema,
+// the source dump, the export error as seen inside an explicit transaction, the parsed export file,
+// the steps and the verdict of the case. It is skipped when VERIF_REPLAY is not set.
 func TestDebug(t *testing.T) {
 	raw := hx.ReplayCase(t)
 	var c Case
